@@ -39,6 +39,23 @@ class Inconclusive(Exception):
     pass
 
 
+class AbortCase(Exception):
+    """Raised by a check after it has recorded a violation that makes the rest of the case meaningless."""
+
+
+def api_call(ctx, label, fn, *args, **kwargs):
+    """Call a public library function in one of its documented call forms (keyword names, positional order).
+    A TypeError raised by the call itself -- the arguments did not bind -- is a violation, not a harness error."""
+    try:
+        return fn(*args, **kwargs)
+    except TypeError as e:
+        tb = e.__traceback__
+        if tb is not None and tb.tb_next is None:
+            ctx.violation(f"api:{label}:documented-call-form-rejected", {"exception": repr(e), "kwargs": sorted(kwargs), "n_positional": len(args)})
+            raise AbortCase() from e
+        raise
+
+
 def assert_repo_import():
     import simfile
 
@@ -428,7 +445,10 @@ def run_shard(mod, ctx, replay_case=None):
     try:
         if replay_case is not None:
             ctx.begin(replay_case)
-            mod.check(ctx, replay_case)
+            try:
+                mod.check(ctx, replay_case)
+            except AbortCase:
+                pass
         else:
             if ctx.shard == 0:
                 run_probes(ctx, mod)
@@ -437,6 +457,8 @@ def run_shard(mod, ctx, replay_case=None):
                     mod.check(ctx, case)
                 except Inconclusive:
                     raise
+                except AbortCase:
+                    pass
                 except Exception as e:
                     tb = e.__traceback__
                     if harness_frame(tb):
